@@ -39,6 +39,8 @@ def hit(real, *a, **kw):
     """the faulty primitive: raise, or die before/after really doing it"""
     if kind == "raise":
         raise Boom("injected")
+    if kind == "interrupt":            # a BaseException that is not an Exception (Ctrl-C / SystemExit during the write)
+        raise KeyboardInterrupt()
     if kind == "die":
         if after:
             real(*a, **kw)
@@ -67,7 +69,7 @@ class Proxy:
                     t.file.write(data[:j]); t.flush()
                     if kind == "die":
                         os._exit(9)
-                    raise Boom("injected write")
+                    raise (KeyboardInterrupt() if kind == "interrupt" else Boom("injected write"))
                 return t.file.write(data)
         self.file = F()
     def flush(self):
@@ -86,7 +88,7 @@ class Proxy:
                     self._t.__exit__(*a)
                 os._exit(9)
             self._t.__exit__(*a)
-            raise Boom("injected close")
+            raise (KeyboardInterrupt() if kind == "interrupt" else Boom("injected close"))
         return self._t.__exit__(*a)
 
 def f_ntf(*a, **kw):
@@ -150,7 +152,7 @@ def run_case(case):
         os.chmod(os.path.join(d, "q.sql"), mode)
         spec = {"dir": d, "k": k, "j": j, "kind": kind, "after": after, "input_name": "q.sql", "output_name": names["output"],
                 "new": new, "encoding": encoding}
-        env = dict(os.environ, PYTHONPATH="/repo/src", PYTHONHASHSEED="0")
+        env = dict(os.environ, PYTHONPATH=os.environ.get("VERIF_REPO", "/repo") + "/src", PYTHONHASHSEED="0")
         p = subprocess.run([sys.executable, "-c", DRIVER, json.dumps(spec)], stdout=subprocess.PIPE, stderr=subprocess.PIPE, text=True, env=env, timeout=120)
         if p.returncode == 9:
             result = "died"
@@ -166,7 +168,7 @@ def run_case(case):
 
 def model_lit(case):
     k, j, kind, after, mode, suffix, encoding, orig, new = case
-    f = "FNone" if kind == "none" else ("(FRaise %d %d)" % (k, j) if kind == "raise" else "(FDie %d %d %s)" % (k, j, coq.cbool(after)))
+    f = "FNone" if kind == "none" else ("(FRaise %d %d)" % (k, j) if kind in ("raise", "interrupt") else "(FDie %d %d %s)" % (k, j, coq.cbool(after)))
     o = "(Some (%s, %d))" % (coq.ctext(orig), mode)
     s0 = "(mkFs None %s None)" % o if suffix else "(mkFs %s None None)" % o
     return "(%s, %s, %s, %s)" % (coq.cbool(suffix), coq.ctext(new), f, s0)
@@ -262,6 +264,8 @@ def run(ctx, coq_ok):
             for after in (False, True):
                 for j in ((1,) if k == 2 else (0,)):
                     cases.append((k, j, "die", after, 0o644, suffix, "utf-8", orig, new))
+        for k in range(8):
+            cases.append((k, 0, "interrupt", False, 0o644, suffix, "utf-8", orig, new))
     for enc in ("utf-8-sig", "latin-1"):
         cases.append((0, 0, "none", False, 0o644, False, enc, orig, new))
         cases.append((2, 2, "raise", False, 0o644, False, enc, orig, new))
